@@ -36,7 +36,7 @@ UNMODELLED = ['the order in which eat_chunk iterates the *set* of newly complete
 ASSUMPTIONS = ['an inspector whose eat_chunk raised is not fed again (InspectWrapper discipline); finish() is called once '
                'after the last chunk']
 
-BUDGET = {'quick': dict(pair=5_000_000, total=700_000_000), 'thorough': dict(pair=60_000_000, total=9_000_000_000)}
+BUDGET = {'quick': dict(pair=5_000_000, total=800_000_000), 'thorough': dict(pair=60_000_000, total=9_000_000_000)}
 
 
 def generate():
@@ -262,10 +262,10 @@ def pairs_for(ctx, img, rng, budget, spent, wrap=False):
     kept, skipped = G.select(fmt, n, fam, budget['pair'], mo)
     if skipped:
         ctx.count('chunkings-skipped-for-model-cost', skipped)
-    if quick and len(kept) > 16:
+    if quick and len(kept) > 20:
         head = [k for k in kept if k[0] in ('one', 'fixed512', 'fixed1', 'fixed17', 'empties')]
         rest = [k for k in kept if k not in head]
-        kept = head + rng.sample(rest, max(0, 16 - len(head)))
+        kept = head + rng.sample(rest, max(0, 20 - len(head)))
     out = []
     for tag, sizes in kept:
         c = G.model_cost(fmt, n, sizes, mo)
@@ -282,17 +282,26 @@ def correspondence(ctx):
     rng = ctx.rng
     budget = BUDGET['quick' if ctx.quick else 'thorough']
     out = engine_correspondence(ctx, 8 if ctx.quick else 10)
-    spent = [0]
     imgs = image_stream(ctx, rng)
+    # the known-class minority first, the rest in random order, so that no generator family is starved
+    # when the model budget runs out; a quarter of the budget is kept for the InspectWrapper runs
+    known = [i for i in imgs if i.tag.startswith('known/')]
+    rest = [i for i in imgs if not i.tag.startswith('known/')]
+    rng.shuffle(rest)
+    spent = [0]
+    b_insp = dict(budget, total=budget['total'] * 3 // 4)
     pairs = []
-    for img in imgs:
-        pairs += pairs_for(ctx, img, rng, budget, spent)
+    for img in known + rest:
+        pairs += pairs_for(ctx, img, rng, b_insp, spent)
     # the InspectWrapper verdict on a subset (every inspector sees the same reads)
-    wrap_imgs = [i for i in imgs if i.tag.startswith(('wf/', 'poly/', 'known/'))]
-    wrap_imgs += rng.sample(imgs, min(len(imgs), 10 if ctx.quick else 60))
+    wrap_imgs = known + [i for i in rest if i.tag.startswith(('wf/', 'poly/'))]
+    wrap_imgs += rng.sample(rest, min(len(rest), 10 if ctx.quick else 60))
+    spent_w = [0]
+    b_wrap = dict(budget, total=budget['total'] // 4)
     for img in wrap_imgs:
-        ps = pairs_for(ctx, img, rng, budget, spent, wrap=True)
+        ps = pairs_for(ctx, img, rng, b_wrap, spent_w, wrap=True)
         pairs += ps if not ctx.quick else rng.sample(ps, min(len(ps), 5))
+    spent[0] += spent_w[0]
 
     def on(p, impl):
         G.note_verdict(ctx, p, impl)
@@ -404,6 +413,8 @@ def make_failure(img, sizes_a, sizes_b, kind, what, ckind='insp'):
 def search_family(ctx, img, rng, full):
     n = len(img.data)
     small = (1, 3, 17, 64, 100) if n <= 40 * G.K else ((17, 64, 100) if (n <= 400 * G.K and (full or not ctx.quick)) else ())
+    if small and n > 40 * G.K and not ctx.quick and rng.random() < 0.08:
+        small = (1, 3) + small                   # 1-byte feed of a VHDX-sized stream (implementation only)
     return G.chunk_family(n, img.bounds, rng, pairs='all' if n <= 4096 else 'sample', small=small,
                           nrandom=8 if (full or not ctx.quick) else 4)
 
